@@ -286,6 +286,15 @@ def families() -> dict:
                                             _st("K", ["J"])]},
                         "hold": [("CompleteStage", "C"), ("StartStage", "J")],
                         "race": [("CompleteStage", "C", 0), ("StartStage", "J", 0), ("late", "StartStage", "J")], "prop": "C04"}
+    # the join's task is built by its StageDefinitionBuilder at start time (like the built-in wait stage): a second plan of the
+    # stage shows as a second task row and a second StartTask.  Not in Conc.v's vocabulary: implementation-side monitors only.
+    F["diamond2_built"] = {"spec": {"stages": [_st("A"), _st("B", ["A"]), _st("C", ["A"]), _st("D", ["B", "C"], built=True), _st("Z", ["D"])]},
+                           "hold": [("StartStage", "D")], "race": [("StartStage", "D", 0), ("StartStage", "D", 1)], "prop": "C04",
+                           "monitor_only": True}
+    F["first_of_built"] = {"spec": {"stages": [_st("A"), _st("B", ["A"]), _st("C", ["A"]),
+                                               _st("J", ["B", "C"], join="DISCRIMINATOR", built=True), _st("K", ["J"])]},
+                           "hold": [("StartStage", "J")], "race": [("StartStage", "J", 0), ("StartStage", "J", 1)], "prop": "C04",
+                           "monitor_only": True}
     # a stage without tasks: no task-row CAS behind the stage CAS
     F["diamond2_notasks"] = {"spec": {"stages": [_st("A"), _st("B", ["A"]), _st("C", ["A"]), _st("D", ["B", "C"], tasks=[]), _st("Z", ["D"])]},
                              "hold": [("StartStage", "D")], "race": [("StartStage", "D", 0), ("StartStage", "D", 1)], "prop": "C04"}
@@ -321,7 +330,7 @@ def families() -> dict:
     return F
 
 
-QUICK = {"C04": ["diamond2", "diamond2_notasks", "diamond3", "first_of_single", "quorum_late", "first_of_sc", "first_of_scc", "quorum_ssc", "quorum_sc", "first_of_late", "signal_f8"],
+QUICK = {"C04": ["diamond2", "diamond2_built", "first_of_built", "diamond2_notasks", "diamond3", "first_of_single", "quorum_late", "first_of_sc", "first_of_scc", "quorum_ssc", "quorum_sc", "first_of_late", "signal_f8"],
          "C11": ["mutex_pair", "mutex_pair_sweep", "mutex_triple", "mutex_steal", "mutex_dup", "choice2_sweep", "choice3", "mutex_choice"]}
 
 # ---------------------------------------------------------------------------------------------------------
@@ -833,6 +842,18 @@ def monitors(p: Prepared, r: dict) -> list[tuple[str, str]]:
     for ref, n in starts.items():
         if n > 1:
             out.append(("start:twice", f"stage {ref} committed NOT_STARTED->RUNNING {n} times"))
+    for a in r["alpha"]["stages"]:
+        want = len(spec.get(a["ref"], {}).get("tasks", []))
+        if a["ref"] in spec and len(a["tasks"]) > want:
+            out.append(("planned:twice", f"stage {a['ref']} has {len(a['tasks'])} task rows after the race, its definition has {want}: it was planned more than once"))
+    per_stage: dict = {}
+    for (typ, ref, task, retry), n in pushes.items():
+        if typ == "StartTask":
+            per_stage[ref] = per_stage.get(ref, 0) + n
+    for ref, n in per_stage.items():
+        # the race ends before any task completes: at most the first task of a stage can have been started
+        if n > 1 and not r.get("drain"):
+            out.append(("starttask:twice", f"StartTask for stage {ref} pushed {n} times during the race"))
     for (typ, ref, task, retry), n in pushes.items():
         if typ == "StartTask" and n > 1:
             out.append(("starttask:twice", f"StartTask for stage {ref} pushed {n} times"))
@@ -910,7 +931,7 @@ def _job(args):
     try:
         p = prepare(name, F[name], tag="c04")
         runs = explore(p, bound, limit, n_random, seed, root=root)
-        st = state_term(p)
+        st = None if F[name].get("monitor_only") else state_term(p)
         res = []
         for r in runs:
             item = {"family": name, "choices": [i for i, _ in r["trace"]], "origin": r["origin"], "error": r["error"],
@@ -918,7 +939,7 @@ def _job(args):
                     "steps": len(r["trace"]), "outcome": r["outcome"], "open_txn_left": r.get("open_txn_left")}
             if not r["error"] and not item["crash"]:
                 o = observed(p, r)
-                item["case"] = case_term(p, st, workers_term(p, r), o)
+                item["case"] = None if F[name].get("monitor_only") else case_term(p, st, workers_term(p, r), o)
                 item["mon"] = monitors(p, r)
                 item["summary"] = {"stages": [s["status"] for s in o["stages"]], "claims": o["claims"], "starts": o["starts"],
                                    "new_msgs": [(q["type"], q["stage"], q.get("retry_count")) for q in o["queue"] if q["id"] >= p.alpha0["next"]],
@@ -974,6 +995,7 @@ def check(ctx, pid: str) -> RunResult:
     cases, meta = [], []
     dist = {"families": {}, "origin": {}, "preemptions": {}, "threads": {}, "steps": {}}
     viol: dict = {}
+    mon_only = 0
     for o in outs:
         if o.get("fatal"):
             res.disagreements.append({"what": "harness job crashed", "family": o["name"], "root": o["root"], "detail": o["fatal"]})
@@ -986,9 +1008,15 @@ def check(ctx, pid: str) -> RunResult:
             if r["error"] or r["crash"]:
                 res.disagreements.append({"what": "scheduler error", "family": o["name"], "choices": r["choices"], "error": r["error"], "crash": r["crash"]})
                 continue
+            fam["schedules"] += 1
+            if r["case"] is None:
+                # a monitor-only family: really run and judged by the monitors, not compared with Conc.v
+                mon_only += 1
+                for sig, what in r["mon"]:
+                    viol.setdefault(sig, (what, {"family": o["name"], "choices": r["choices"], "what": what}))
+                continue
             cases.append(r["case"])
             meta.append(r)
-            fam["schedules"] += 1
             k = json.dumps([r["summary"]["stages"], r["summary"]["after_drain"]])
             fam["outcomes"][k] = fam["outcomes"].get(k, 0) + 1
             dist["origin"][r["origin"]] = dist["origin"].get(r["origin"], 0) + 1
@@ -1011,7 +1039,8 @@ def check(ctx, pid: str) -> RunResult:
         if sig.startswith("model-mismatch:"):
             continue           # a disagreement, not a property violation by itself; search() looks for one
         res.violations.append(Violation(what=what, signature=sig, replay=rep))
-    res.evaluations = len(cases)
+    res.evaluations = len(cases) + mon_only
+    dist["monitor_only_schedules"] = mon_only
     res.traces_validated = len(cases) - len(fail)
     res.distinct_nontrivial = sum(1 for m in meta if m["preemptions"] >= 1)
     res.samples = [{"family": m["family"], "choices": m["choices"], "observed": m["summary"]} for m in meta[:: max(1, len(meta) // 6)]][:6]
